@@ -425,7 +425,7 @@ def measure_long(bprime, factor, what, root):
 
     L = bprime * factor
     mixed = what == "index_mixed_width"
-    void = what == "autoload_warm"
+    void = what in ("autoload_warm", "autoload_torn")
     fa = Path(root) / f"long{L}{'m' if mixed else ''}{'v' if void else ''}.fa"
     if not fa.exists():
         _long_fasta(fa, L, width=250 if mixed else 60, narrow_first=mixed, void_record=void)
@@ -435,6 +435,10 @@ def measure_long(bprime, factor, what, root):
         index_mod.FastaIndex(fa, bprime).auto_load()
         st = os.stat(fa)
         os.utime(fa, ns=(st.st_mtime_ns - 5_000_000_000, st.st_mtime_ns - 5_000_000_000))
+        if what == "autoload_torn":
+            # what an interrupted writer of an older version may have left: an empty
+            # .fai that is newer than the FASTA (the loader must cope within its budget)
+            open(str(fa) + ".fai", "w").close()
     elif not what.startswith("index"):
         idx, _asm = index_mod.index_fasta_file(fa, 250_000)
     gc.collect()
@@ -444,8 +448,13 @@ def measure_long(bprime, factor, what, root):
         tracemalloc.reset_peak()
         if void:
             fi = index_mod.FastaIndex(fa, bprime)
-            fi.auto_load()
-            if "void" not in fi.index or len(fi.assembly.scaffolds) != 3:
+            try:
+                fi.auto_load()
+            except Exception:  # noqa: BLE001 - failing loudly on a torn cache is fine
+                if what != "autoload_torn":
+                    raise
+                fi = None
+            if fi is not None and ("void" not in fi.index or len(fi.assembly.scaffolds) != 3):
                 raise Bad("differential_index", "autoload_warm", "warm auto_load lost the record without residues")
         elif what.startswith("index"):
             index_mod.index_fasta_file(fa, bprime)
@@ -611,7 +620,7 @@ def large_case(run_seed, tier, which):
         sandbox.remove(root)
 
 
-LONG_WHATS = ["index", "stream_fwd", "stream_rev", "stream_gap", "index_mixed_width", "autoload_warm"]
+LONG_WHATS = ["index", "stream_fwd", "stream_rev", "stream_gap", "index_mixed_width", "autoload_warm", "autoload_torn"]
 
 
 def long_case(bprime, what, run_seed, tier):
